@@ -5,6 +5,7 @@ NAME = "nurikabe"
 MODULE = "cspuz.puzzle.nurikabe"
 FUNC = "solve_nurikabe"
 TIER1 = ("Nurikabe", "solve_nurikabe_model")
+TIER1_PRIM = ("NurikabePrim", "solve_nurikabe_model_prim")
 
 
 def call(mod, pb):
